@@ -85,3 +85,11 @@ reg("C16", "^TestC16$", q=(80, 4, 900), t=(800, 16, 3600), batch=120,
          "injected GER with index >= X whenever one exists.",
     note="Trusted: fakechain; the model L1InfoTreeQuerier. Quiescence = cadence script finished and >=3 consecutive tip polls without other RPC; a mismatch is reported only if it persists while idle; 30 s cap = inconclusive. Forked L2 chains are covered at store level by C04 and at driver level by C06.",
     design="§3 C16")
+
+reg("C20", "^TestC20$", q=(3000, 4, 600), t=(30000, 16, 3000), fuzz=("FuzzC20", 180),
+    technique="property-based testing: grammar-generated call trees (rapid) + native coverage-guided fuzzing through a structured byte decoder; oracle = recursive specification of the live matching call",
+    text="Exploration: generated debug_traceTransaction call trees (both ABI generations packed with the real contract ABIs, reverted "
+         "frames anywhere, decoys) are fed to the real setClaimCalldata/findCall/decode path; the recorded details must be those of a "
+         "live matching bridge call, or an error with the claim untouched.",
+    note="Trusted: go-ethereum ABI packer; the 15-line recursive specification. Domain: every call addressed to the bridge is a claim call.",
+    design="§3 C20")
